@@ -125,6 +125,16 @@ func (m mergeRunner) Run(c *Ctx, i int) CaseResult {
 				sigStats[feat]++
 			}
 		}
+		// L2: merge.go's comparison of applied directive lists against Md.listsEqual (4 pairs per case)
+		for k := 0; k < 4; k++ {
+			df, feat := MergeDirsCorr(c, c.Rand(i*100+k+62000000))
+			if len(df) > 0 {
+				return CaseResult{ID: fmt.Sprintf("gen:%d", i), Nontrivial: true, Fails: df}
+			}
+			if feat != "" {
+				sigStats[feat]++
+			}
+		}
 	}
 	if i < len(mergeCorpus) {
 		mc = mergeCorpus[i]
